@@ -53,7 +53,7 @@ Value& RAWExpression::value(Context & ctx) const
       n = *val.integer();
       break;
     case Type::NUMERIC:
-      n = Integer(*val.numeric());
+      n = Value::toInteger(*val.numeric());
       break;
     case Type::TABCHAR:
       return val;
@@ -73,7 +73,7 @@ Value& RAWExpression::value(Context & ctx) const
           v = *a1.integer();
           break;
         case Type::NUMERIC:
-          v = Integer(*a1.numeric());
+          v = Value::toInteger(*a1.numeric());
           break;
         default:
           throw RuntimeError(EXC_RT_FUNC_ARG_TYPE_S, KEYWORDS[FUNC_RAW]);
